@@ -237,7 +237,7 @@ impl SimActor {
                 }
             }
             Step::Spin(us) => std::thread::sleep(Duration::from_micros(*us as u64)),
-            Step::Send { to, how, msg } => {
+            Step::Send { to, how, msg, erased } => {
                 let op = world.rec.new_op();
                 world.rec.rec(K::OpBegin {
                     op,
@@ -252,9 +252,14 @@ impl SimActor {
                 let res = match &peer {
                     None => Ok(Res::Skipped),
                     Some(r) => {
-                        AssertUnwindSafe(send_direct(&r.inner, *how, (**msg).clone(), &world))
-                            .catch_unwind()
-                            .await
+                        if *erased {
+                            let b = crate::client::Strong::Erased(crate::client::Bundle::from_ref(&r.inner, msg.id % 2 == 0));
+                            AssertUnwindSafe(b.send(*how, (**msg).clone(), (msg.id % 251) as u8, &world)).catch_unwind().await
+                        } else {
+                            AssertUnwindSafe(send_direct(&r.inner, *how, (**msg).clone(), &world))
+                                .catch_unwind()
+                                .await
+                        }
                     }
                 };
                 drop(peer);
